@@ -255,6 +255,37 @@ func encode(data []byte, next func(rem int) int) (doc []byte, err error) {
 	return buf.Bytes(), err
 }
 
+// judgeChunked judges an armored document that differs from the single-Write document of the same
+// payload.  The statement does not require the encoder's output to be independent of the Write
+// pattern, only that it has the armor structure and decodes to the payload; a different but valid
+// document is counted, not flagged.
+func judgeChunked(r *en.R, doc, data []byte, desc func() interface{}) {
+	_, _, sig, msg := parseArmor(doc)
+	if sig != "" {
+		r.Fail("chunking:"+sig, msg, desc())
+		return
+	}
+	var out []byte
+	var err error
+	p, val, stack := en.Try(func() {
+		var d io.Reader
+		d, err = NewArmorDecoder(bytes.NewReader(doc))
+		if err == nil {
+			out, err = io.ReadAll(d)
+		}
+	})
+	switch {
+	case p:
+		r.Fail("chunking:decode-panic@"+en.PanicSite(stack), fmt.Sprint(val), desc())
+	case err != nil:
+		r.Fail("chunking:decode-error", "the armor written with this Write pattern does not decode: "+err.Error(), desc())
+	case !bytes.Equal(out, data):
+		r.Fail("chunking:wrong-data", fmt.Sprintf("the armor written with this Write pattern decodes to %d bytes that differ from the %d-byte payload at offset %d", len(out), len(data), firstDiff(out, data)), desc())
+	default:
+		r.Case("ch|valid-but-different", true)
+	}
+}
+
 func fixed(k int) func(int) int { return func(int) int { return k } }
 
 // ---- driving the real decoder -------------------------------------------------------------------
@@ -928,7 +959,7 @@ func TestVerifEnum(t *testing.T) {
 		smallMax, base1Max, compMax = 100, 50, 16
 	}
 	fixedSizes := []int{1, 2, 3, 4, 5, 7, 31, 32, 33, 1000, 4096}
-	begin("chunking", fmt.Sprintf("encoder output must not depend on the Write pattern: every payload x fixed Write sizes %v (1 B only up to 30 kB) + zero-length Writes interleaved; payloads <= %d B: all scripts with <= 2 deviations from {3 B, rest} (alternatives 1 B, 2 B, 3 B, rest, 0 B), <= %d B also from 1 B; all compositions of payloads <= %d B", fixedSizes, smallMax, base1Max, compMax))
+	begin("chunking", fmt.Sprintf("armor written under a Write pattern has the armor structure and decodes to the payload (a document identical to the single-Write one is accepted directly): every payload x fixed Write sizes %v (1 B only up to 30 kB) + zero-length Writes interleaved; payloads <= %d B: all scripts with <= 2 deviations from {3 B, rest} (alternatives 1 B, 2 B, 3 B, rest, 0 B), <= %d B also from 1 B; all compositions of payloads <= %d B", fixedSizes, smallMax, base1Max, compMax))
 	for _, p := range payloads {
 		if !r.Mine() {
 			continue
@@ -949,7 +980,7 @@ func TestVerifEnum(t *testing.T) {
 			case err != nil:
 				r.Fail("chunking:encode-error", err.Error(), desc())
 			case !bytes.Equal(doc, c.doc):
-				r.Fail("chunking:output-differs", fmt.Sprintf("output (%d bytes) differs from the single-Write output (%d bytes) at offset %d", len(doc), len(c.doc), firstDiff(doc, c.doc)), desc())
+				judgeChunked(r, doc, c.data, desc)
 			}
 		}
 		for _, k := range fixedSizes {
@@ -1005,7 +1036,9 @@ func TestVerifEnum(t *testing.T) {
 					case err != nil:
 						r.Fail("chunking:encode-error", err.Error(), map[string]interface{}{"payload": p.String(), "write_sizes": script})
 					case !bytes.Equal(doc, c.doc):
-						r.Fail("chunking:output-differs", fmt.Sprintf("output differs from the single-Write output at offset %d", firstDiff(doc, c.doc)), map[string]interface{}{"payload": p.String(), "write_sizes": script})
+						judgeChunked(r, doc, c.data, func() interface{} {
+							return map[string]interface{}{"payload": p.String(), "write_sizes": script}
+						})
 					}
 				})
 			}
@@ -1027,6 +1060,76 @@ func TestVerifEnum(t *testing.T) {
 				check(func() interface{} {
 					return map[string]interface{}{"payload": p.String(), "write_sizes": sc}
 				}, fmt.Sprintf("comp%d", mask), true, func(int) int { k := sc[idx]; idx++; return k })
+			}
+		}
+	}
+
+	// 2b. write scripts over size classes ---------------------------------------------------------
+	// The stream encoders underneath have their own thresholds (3-byte groups, 24-byte words, the
+	// 768/1024-byte staging buffer of encoding/base64, element limits), and a Write may be handled
+	// differently depending on what earlier Writes left behind: all sequences of up to L Writes over
+	// a boundary alphabet, followed by the rest in one Write.
+	{
+		sizes := []int{0, 1, 2, 3, 4, 23, 24, 25, 767, 768, 769, 1023, 1024, 1025, 3072, 4097}
+		L := 4
+		if thorough {
+			L = 5
+		}
+		begin("chunking-sizeclass", fmt.Sprintf("payload of 26000 position-dependent bytes: every sequence of <= %d Writes with sizes from %v followed by the rest in one Write (%d scripts); oracle: armor structure + real decoder returns the payload", L, sizes, func() int {
+			t, p := 0, 1
+			for i := 1; i <= L; i++ {
+				p *= len(sizes)
+				t += p
+			}
+			return t
+		}()))
+		data := make([]byte, 26000)
+		for i := range data {
+			data[i] = byte(i*131 + i>>8*29 + 7)
+		}
+		ref, rerr := encode(data, nil)
+		if rerr != nil {
+			r.Fail("chunking:encode-error", rerr.Error(), "size-class payload, single Write")
+		}
+		for l := 1; l <= L && rerr == nil; l++ {
+			radix := make([]int, l)
+			for i := range radix {
+				radix[i] = len(sizes)
+			}
+			od := en.NewOdometer(radix...)
+			for od.Next() {
+				if !r.Mine() {
+					continue
+				}
+				if r.TimeUp() {
+					break
+				}
+				script := make([]int, l)
+				for i, d := range od.V {
+					script[i] = sizes[d]
+				}
+				idx := 0
+				next := func(rem int) int {
+					if idx < len(script) {
+						k := script[idx]
+						idx++
+						return k
+					}
+					return rem
+				}
+				doc, err := encode(data, next)
+				r.CaseN(1)
+				desc := func() interface{} {
+					return map[string]interface{}{"payload": "pos(26000)", "write_sizes_then_rest": script}
+				}
+				switch {
+				case err != nil && strings.HasPrefix(err.Error(), "Write of"):
+					r.Fail("chunking:write-count", err.Error(), desc())
+				case err != nil:
+					r.Fail("chunking:encode-error", err.Error(), desc())
+				case !bytes.Equal(doc, ref):
+					judgeChunked(r, doc, data, desc)
+				}
 			}
 		}
 	}
